@@ -108,7 +108,6 @@ std::string op_eith1(std::string const &_op, line_t const &L)
               FWD(x),
               [fside](auto &&v)
               {
-                v.read();
                 return fside == 1 ? eith<T>{thru{}(FWD(v))} : eith<T>{fail<T>{thru{}(FWD(v))}};
               });
         })};
@@ -478,7 +477,7 @@ std::string op_eith_more(std::string const &_op, line_t const &L)
                 need(k == 0 || k == 1);
                 if (k == 1)
                 {
-                  e.read();
+                  ask(FWD(e));
                   return err{fcppt::either::no_error{}};
                 }
                 return err{fail<T>{thru{}(FWD(e))}};
